@@ -163,8 +163,11 @@ def DocBefore : Path → Path → Bool
 `findFollowingSiblings`, `findPreceedingSiblings`), as pointer walks over paths.  Result: the nodes in the order the
 loop appends them, and whether the code then calls `setReverseDocumentOrder()` (else `setDocumentOrder()`). -/
 
+def noAttrStep (p : Path) : Bool := p.all fun s => match s with | .child _ => true | .attr _ => false
+
 inductive Axis where
   | child | attributes | parent | ancestor | followingSibling | precedingSibling
+  | self | ancestorOrSelf | descendant | descendantOrSelf | following | preceding | namespaces
 deriving DecidableEq, Repr
 
 def findAxis (t : Tree) : Axis → Path → List Path × Bool
@@ -198,6 +201,26 @@ def findAxis (t : Tree) : Axis → Path → List Path × Bool
     -- `getPreviousSibling()` loop: nearest first, flagged reverse
     if ctx = [] ∨ lastIsAttr ctx = true then ([], true)
     else (((List.range (lastPos ctx)).reverse).map fun j => ctx.dropLast ++ [Step.child j], true)
+
+  | .self, ctx => ([ctx], false)
+  | .ancestorOrSelf, ctx =>
+    -- `findAncestorsOrSelf`: the context node, then the parent walk; flagged reverse
+    (((List.range (ctx.length + 1)).reverse).map fun k => ctx.take k, true)
+  -- the remaining axes are given by their definition in the Recommendation, as a selection from the document-order
+  -- walk (the visiting order of the C++ walks is compared with it by the correspondence runs only)
+  | .descendant, ctx =>
+    (t.paths.filter fun q => ctx.isPrefixOf q && (q != ctx) && noAttrStep (q.drop ctx.length), false)
+  | .descendantOrSelf, ctx =>
+    (t.paths.filter fun q => ctx.isPrefixOf q && noAttrStep (q.drop ctx.length), false)
+  | .following, ctx =>
+    (t.paths.filter fun q => DocBefore ctx q && !(ctx.isPrefixOf q) && noAttrStep q, false)
+  | .preceding, ctx =>
+    -- `findPreceeding`: delivered nearest first, flagged reverse
+    ((t.paths.filter fun q => DocBefore q ctx && !(q.isPrefixOf ctx) && noAttrStep q).reverse, true)
+  | .namespaces, ctx =>
+    -- `findNamespace`: (namespace-declaration) attributes of the ancestor-or-self elements; after the final
+    -- `reverse()` they are in document order
+    (t.paths.filter fun q => lastIsAttr q && q.dropLast.isPrefixOf ctx && !lastIsAttr ctx, false)
 
 /-- index comparison (`node1.getIndex() > node2.getIndex()`) through the document-order list -/
 def indexOf (t : Tree) (p : Path) : Nat := t.paths.idxOf p
